@@ -479,7 +479,15 @@ func (se *SpecEnv) evalSel(x *SExpr) TV {
 	// package-qualified name?
 	if x.Args[0].Kind == "id" {
 		if _, bound := se.B.lookup(x.Args[0].Name); !bound {
-			if p := c.W.ByName[x.Args[0].Name]; p != nil {
+			p := c.W.ByName[x.Args[0].Name]
+			if p == nil && se.Pkg != nil {
+				for _, ip := range se.Pkg.Imports {
+					if ip.Name == x.Args[0].Name {
+						p = ip
+					}
+				}
+			}
+			if p != nil {
 				if se.Env == nil || !se.hasLocal(x.Args[0].Name) {
 					n := *se
 					n.Pkg = p
@@ -658,6 +666,18 @@ func (se *SpecEnv) evalCall(x *SExpr) TV {
 			se.fail("base needs a slice")
 		}
 		return TV{a.Base, nil}
+	case "unchanged":
+		// unchanged(s): the whole backing array of s is what it was in the old state
+		a, _ := se.asSlice(se.eval(args[0]))
+		if a == nil {
+			se.fail("unchanged needs a slice")
+		}
+		var cs []*Term
+		for _, lf := range c.memLeaves(a.Elem) {
+			ms := SArr(SInt, SArr(c.idxSort(), lf.S))
+			cs = append(cs, Eq(Select(c.heapGet(se.Cur, lf.Path, ms), a.Base), Select(c.heapGet(se.Old, lf.Path, ms), a.Base)))
+		}
+		return TV{And(cs...), bt}
 	case "freshbase":
 		a, _ := se.asSlice(se.eval(args[0]))
 		if a == nil {
